@@ -188,6 +188,59 @@ pub struct T12 {
     c: Option<String>,
 }
 
+#[derive(Serialize, Deserialize, PartialEq, Debug, Clone, Default)]
+#[serde(rename = "ov")]
+pub struct T17 {
+    #[serde(rename = "@a", default, skip_serializing_if = "Option::is_none")]
+    a: Option<String>,
+    #[serde(rename = "$value", default)]
+    v: Option<String>,
+}
+
+#[derive(Serialize, Deserialize, PartialEq, Debug, Clone, Default)]
+#[serde(rename = "oc")]
+pub struct T18 {
+    #[serde(rename = "$value", default)]
+    v: Option<Choice>,
+}
+
+#[derive(Serialize, Deserialize, PartialEq, Debug, Clone, Default)]
+#[serde(rename = "ot")]
+pub struct T19 {
+    #[serde(rename = "$text", default)]
+    t: Option<String>,
+    #[serde(default)]
+    child: Option<Box<T19>>,
+    #[serde(default)]
+    list: Option<Vec<String>>,
+}
+
+#[derive(Serialize, Deserialize, PartialEq, Debug, Clone, Default)]
+#[serde(rename = "ts")]
+pub struct T20(String, #[serde(default)] Option<i32>);
+
+#[derive(Serialize, Deserialize, PartialEq, Debug, Clone, Default)]
+#[serde(rename = "vl")]
+pub struct T21 {
+    #[serde(rename = "$value", default)]
+    v: Vec<String>,
+}
+
+#[derive(Serialize, Deserialize, PartialEq, Debug, Clone)]
+pub enum T22 {
+    #[serde(rename = "$text")]
+    Text(String),
+    Unit,
+    New(Inner),
+    Tuple(String, String),
+    Struct {
+        #[serde(rename = "$value", default)]
+        v: Option<String>,
+        #[serde(rename = "@n", default)]
+        n: Option<bool>,
+    },
+}
+
 /// HashMap with an order-independent Debug rendering (iteration order of a
 /// randomised hash map must never reach a log, a digest or a replay file)
 #[derive(Deserialize, PartialEq, Clone, Default)]
@@ -200,7 +253,7 @@ impl std::fmt::Debug for HM {
     }
 }
 
-pub const N_TYPES: u32 = 17;
+pub const N_TYPES: u32 = 23;
 
 pub fn type_name(id: u32) -> &'static str {
     match id {
@@ -221,6 +274,12 @@ pub fn type_name(id: u32) -> &'static str {
         14 => "Unit",
         15 => "Newtype(String)",
         16 => "Vec<Item>",
+        17 => "T17 {@a?, $value: Option<String>}",
+        18 => "T18 {$value: Option<enum Choice>}",
+        19 => "T19 {$text?, child?: Box<T19>, list?: Vec<String>} (recursive)",
+        20 => "T20(String, Option<i32>) tuple struct",
+        21 => "T21 {$value: Vec<String>}",
+        22 => "enum T22 {$text|Unit|New(Inner)|Tuple(String,String)|Struct{$value?,@n?}}",
         _ => "?",
     }
 }
@@ -380,6 +439,33 @@ pub fn gen_valid_doc(rng: &mut Rng, ty: u32) -> String {
             let v: Vec<Item> = (0..rng.below(4)).map(|_| item(rng)).collect();
             ser(&v, Some("item"))
         }
+        17 => {
+            if rng.bool() {
+                ser(&T17 { a: os(rng), v: os(rng) }, None)
+            } else {
+                Some(format!("<ov{}>{}</ov>", rng.pick(&["", " a=\"1\"", " xsi:nil=\"true\" xmlns:xsi=\"http://www.w3.org/2001/XMLSchema-instance\""]), rng.pick(&["", "text", "<x/>", "<![CDATA[c]]>", " "])))
+            }
+        }
+        18 => Some(format!("<oc>{}</oc>", rng.pick(&["", "<A>a</A>", "<B x=\"3\"/>", "<C/>", "text", "<A/>"]))),
+        19 => {
+            let leaf = T19 { t: os(rng), child: None, list: if rng.bool() { Some((0..rng.below(3)).map(|_| s(rng)).collect()) } else { None } };
+            let v = if rng.bool() { T19 { t: os(rng), child: Some(Box::new(leaf)), list: None } } else { leaf };
+            ser(&v, None)
+        }
+        20 => Some(format!("<ts>{}</ts>{}", rng.pick(&["a", "", "x y"]), rng.pick(&["", "<ts>1</ts>", "<ts/>", "<ts>x</ts>"]))),
+        21 => Some(format!("<vl>{}</vl>", rng.pick(&["", "a", "<a>1</a><b>2</b>", "t<a/>u", "<a>1</a>text"]))),
+        22 => Some(
+            rng.pick(&[
+                "text",
+                "<Unit/>",
+                "<New a=\"1\"><b>2.5</b><c>x</c></New>",
+                "<Tuple>a</Tuple><Tuple>b</Tuple>",
+                "<Struct n=\"true\">v</Struct>",
+                "<Struct/>",
+                "<Struct xsi:nil=\"true\" xmlns:xsi=\"http://www.w3.org/2001/XMLSchema-instance\">v</Struct>",
+            ])
+            .to_string(),
+        ),
         _ => None,
     };
     made.unwrap_or_else(|| {
@@ -398,7 +484,7 @@ const DE_INSERTS: &[&str] = &[
     "<!--c-->", "<!---->", "<![CDATA[cd]]>", "<![CDATA[]]>", "<?pi x?>", "<!DOCTYPE d>", "<!DOCTYPE d [<!ENTITY e 'v'>]>",
     "<x/>", "<x>", "</x>", "<x>t</x>", "t", " ", "\n  ", "&lt;", "&#x41;", "&unknown;", "&", "&e;", "<a>", "</a>",
     "<item k=\"1\">v</item>", "<name>n</name>", "<A>1</A>", "<b>bold</b>", "<br/>", "<skip><skip/></skip>", "<num>7</num>",
-    "<inner/>", "<c>z</c>", "<?xml version=\"1.0\"?>", "]]>", "<root>", "</root>", "<$text>", "<a><b><c/></b></a>",
+    "<inner/>", "<c>z</c>", "<u>x</u>  t", "<u><a/>x<b/></u>\n  t", "<u/> t ", "<u>x<!--c-->y</u>", "<?xml version=\"1.0\"?>", "]]>", "<root>", "</root>", "<$text>", "<a><b><c/></b></a>",
 ];
 const DE_ATTR_INSERTS: &[&str] = &[
     " xsi:nil=\"true\"", " xmlns:xsi=\"http://www.w3.org/2001/XMLSchema-instance\" xsi:nil=\"true\"", " nil=\"true\"",
@@ -542,7 +628,9 @@ fn de_both<T: DeserializeOwned + PartialEq + std::fmt::Debug>(plan: &Plan, from_
         Err(p) => (Res3::Panic(p), None),
     };
     let equal = match (&a, &b) {
-        (Some((_, Some(x))), (_, Some(y))) => x == y,
+        // f32/f64 NaN is not equal to itself under PartialEq: identical Debug renderings
+        // (HashMap is rendered sorted) count as equal values as well
+        (Some((_, Some(x))), (_, Some(y))) => x == y || format!("{:?}", x) == format!("{:?}", y),
         (Some((_, None)), (_, None)) => true,
         (None, _) => true,
         _ => false,
@@ -569,8 +657,38 @@ fn dispatch(plan: &Plan, from_str_too: bool) -> (Option<Res3>, Res3, bool, u32) 
         13 => de_both::<Option<Item>>(plan, from_str_too),
         14 => de_both::<Unit>(plan, from_str_too),
         15 => de_both::<Newtype>(plan, from_str_too),
+        17 => de_both::<T17>(plan, from_str_too),
+        18 => de_both::<T18>(plan, from_str_too),
+        19 => de_both::<T19>(plan, from_str_too),
+        20 => de_both::<T20>(plan, from_str_too),
+        21 => de_both::<T21>(plan, from_str_too),
+        22 => de_both::<T22>(plan, from_str_too),
         _ => de_both::<Vec<Item>>(plan, from_str_too),
     }
+}
+
+/// C14 speaks about UTF-8 documents "not declaring another encoding": anything that
+/// looks like an encoding pseudo-attribute with a value other than UTF-8 is excluded
+/// from the comparison (conservatively: anywhere in the document).
+fn declares_other_encoding(doc: &[u8]) -> bool {
+    let lower: Vec<u8> = doc.iter().map(|b| b.to_ascii_lowercase()).collect();
+    let needle = b"encoding";
+    let mut i = 0;
+    while i + needle.len() <= lower.len() {
+        if &lower[i..i + needle.len()] == needle {
+            let rest = &lower[i + needle.len()..];
+            let v: Vec<u8> = rest.iter().copied().skip_while(|b| matches!(b, b' ' | b'\t' | b'\r' | b'\n' | b'=')).collect();
+            let ok = match v.first() {
+                Some(b'"') | Some(b'\'') => v[1..].starts_with(b"utf-8") && v.get(6) == Some(&v[0]),
+                _ => false,
+            };
+            if !ok {
+                return true;
+            }
+        }
+        i += 1;
+    }
+    false
 }
 
 pub struct De;
@@ -578,6 +696,9 @@ pub struct De;
 impl Scenario for De {
     fn name(&self) -> &'static str {
         "de"
+    }
+    fn panic_prop(&self) -> &'static str {
+        "C07"
     }
     fn gen(&self, rng: &mut Rng, base_seed: u64, run: u64, _tier: Tier) -> Plan {
         let mut p = Plan::new("de", base_seed, run);
@@ -655,7 +776,11 @@ impl Scenario for De {
         } else {
             st.bump("de.from_str_fail");
         }
-        if utf8 && !equal {
+        let other_enc = declares_other_encoding(&plan.doc);
+        if other_enc {
+            st.bump("de.excluded_declares_other_encoding");
+        }
+        if utf8 && !equal && !other_enc {
             out.push(Violation::new(
                 "C14",
                 "str-reader-disagree",
